@@ -67,7 +67,11 @@ Qed.
 
 Lemma pos_conn_tstep cur ii rk fresh index oe s s' : pos_conn cur ii rk fresh index oe s = Ok s' -> tstep s s'.
 Proof.
-  unfold pos_conn. destruct oe as [e|]; [|discriminate]. intro H.
+  unfold pos_conn. destruct oe as [e|].
+  2:{ destruct fresh; intro H; inversion H; subst.
+      - apply put_def_tstep; apply add_unnamed_port_dstep; apply new_bundle_wfb.
+      - constructor; [reflexivity|reflexivity|exists []; rewrite app_nil_r; reflexivity]. }
+  intro H.
   apply bind_ok in H. destruct H as ([d1 ws] & H1 & H).
   set (s1 := put_def cur d1 s) in *.
   assert (T1 : tstep s s1) by (apply put_def_tstep; eapply expr_wires_dstep; exact H1).
